@@ -359,13 +359,39 @@ def load_scenario(scenario: Path, gens: Optional[Sequence[Any]] = None, real_han
             from nrel.hive.dispatcher.instruction_generator.charging_fleet_manager import ChargingFleetManager
             from nrel.hive.dispatcher.instruction_generator.dispatcher import Dispatcher
 
-            gens = (Dispatcher(cfg.dispatcher), ChargingFleetManager(cfg.dispatcher)) + tuple(gens or ())
+            gens = (recording(Dispatcher(cfg.dispatcher)), recording(ChargingFleetManager(cfg.dispatcher))) + tuple(gens or ())
         inits = None
         if cfg.network.network_type == "osm_network":
             inits = [osm_init] + list(default_init_functions())
         rp = load_simulation(cfg, custom_instruction_generators=tuple(gens) if gens is not None else None,
                              custom_init_functions=inits)
     return rp
+
+
+def recording(inner):
+    """Wrap a built-in InstructionGenerator in a pass-through proxy (same name, same output) that remembers
+    what it emitted in the last step and the state it was handed."""
+    from nrel.hive.dispatcher.instruction_generator.instruction_generator import InstructionGenerator
+
+    class Recording(InstructionGenerator):
+        def __init__(self, gen):
+            self.inner = gen
+            self.emitted = ()
+            self.seen = None
+            self.builtin = True
+
+        @property
+        def name(self):
+            return self.inner.name
+
+        def generate_instructions(self, simulation_state, environment):
+            self.seen = simulation_state
+            updated, instructions = self.inner.generate_instructions(simulation_state, environment)
+            self.inner = updated
+            self.emitted = tuple(instructions)
+            return self, instructions
+
+    return Recording(inner)
 
 
 class World:
